@@ -551,6 +551,8 @@ FixIdxEach(s, m, ops, srcpfx, dest) ==
        IF ~IsPrefixSeq(srcpfx, k) THEN FixIdxEach(s, m, Tail(ops), srcpfx, dest)
        ELSE FixIdxEach(FixIdx(s, m, k, dest \o Drop(k, Len(srcpfx))), m, Tail(ops), srcpfx, dest)
 
+RECURSIVE ClearFm(_, _)
+ClearFm(s, ids) == IF ids = <<>> THEN s ELSE ClearFm(SetF(s, Head(ids), "fm", {}), Tail(ids))
 MoveLocal(s, m, p, src, pos0, v) ==
   IF IsAncestor(s, src, p) THEN {Fail(s, "ForbiddenMoveToSubElement")}
   ELSE LET sp == s.n[src].par IN
@@ -564,7 +566,8 @@ MoveLocal(s, m, p, src, pos0, v) ==
   IF sx.t = "err" THEN {Fail(s, sx.v)}
   ELSE IF dx.t = "err" THEN {Fail(s, dx.v)}
   ELSE LET s1 == SetF(s, sp.v, "cont", DelAt(Cont(s, sp.v), PosOfChild(s, sp.v, src)))
-           s2 == [s1 EXCEPT !.n[src] = [@ EXCEPT !.par = PE(p), !.fm = {}]]     \* the moved element inherits the files of its new parent
+           \* the moved elements (src and everything below it) inherit the files of the new parent
+           s2 == [ClearFm(s1, Dfs(s1, src)) EXCEPT !.n[src].par = PE(p)]
            mu == IF IsIdent(s2, src) THEN MakeUnique(s2, m, src, dx.v) ELSE [ok |-> TRUE, s |-> s2, name |-> ""] IN
   IF ~mu.ok THEN {Fail(s, "ElementNotIdentifiable")}    \* cannot happen: IsIdent and a string name
   ELSE LET dest == IF IsIdent(s2, src) THEN dx.v \o <<mu.name>> ELSE dx.v
@@ -596,8 +599,6 @@ ReRegRefs(s, m, rs, origset, srcpfx, dest) ==
        ELSE IF "F20" \in KF THEN ReRegRefs(s, m, Tail(rs), origset, srcpfx, dest)
        ELSE ReRegRefs(AddRefo(s, m, old, r), m, Tail(rs), origset, srcpfx, dest)
 
-RECURSIVE ClearFm(_, _)
-ClearFm(s, ids) == IF ids = <<>> THEN s ELSE ClearFm(SetF(s, Head(ids), "fm", {}), Tail(ids))
 MoveFull(s, m, msrc, p, src, pos0, v) ==
   LET sx == PathUnchecked(s, src)
       dx == PathUnchecked(s, p)
@@ -758,6 +759,206 @@ Duplicate(s, m) ==
   IF ~dc.ok THEN {Fail(s, dc.err)}
   ELSE {Ok(DupFm(dc.s, Dfs(dc.s, dc.s.root[m]), Dfs(dc.s, rid), m, M), M)}
 
+\* ------------------------------------------------------------------ load_buffer: documents, parsing, merging
+\* A document is [ver, root]; a document node is [n |-> element name, v |-> <<>> or <<value>>, at |-> <<[n, v], ..>>, c |-> children].
+\* The catalogue LoadDocs (below) holds valid documents only: lexer / parser errors are the business of spec/doc.
+DN(n, c) == [n |-> n, v |-> <<>>, at |-> <<>>, c |-> c]
+DL(n, val) == [n |-> n, v |-> <<val>>, at |-> <<>>, c |-> <<>>]
+DA(n, at, val) == [n |-> n, v |-> <<val>>, at |-> at, c |-> <<>>]
+DNamed(n, name, c) == DN(n, <<DL("SHORT-NAME", SVal(name))>> \o c)
+\* flatten in document order: sequence of [n, v, at, par (position of the parent in the sequence, 0 for the root)]
+RECURSIVE Flatten(_, _, _)
+RECURSIVE FlattenList(_, _, _)
+Flatten(d, par, acc) == FlattenList(d.c, Len(acc) + 1, Append(acc, [n |-> d.n, v |-> d.v, at |-> d.at, par |-> par]))
+FlattenList(ds, par, acc) == IF ds = <<>> THEN acc ELSE FlattenList(Tail(ds), par, Flatten(Head(ds), par, acc))
+\* kinds of the flattened nodes (find_sub_element of the parent's type in the file's version); "" if the name is not allowed there
+RECURSIVE DocKinds(_, _, _)
+DocKinds(F, v, acc) ==
+  IF Len(acc) = Len(F) THEN acc
+  ELSE LET j == Len(acc) + 1 IN
+       IF F[j].par = 0 THEN DocKinds(F, v, Append(acc, "AUTOSAR"))
+       ELSE LET pk == acc[F[j].par]
+                ci == IF pk = "" THEN 0 ELSE ChildIx(pk, F[j].n, v) IN
+            DocKinds(F, v, Append(acc, IF ci = 0 THEN "" ELSE KChildren(pk)[ci].kind))
+\* the parsed tree as nodes base+1 .. base+Len(F), not attached to anything (the root's parent link is set by the caller)
+ParsedNodes(F, K, base) ==
+  [j \in 1..Len(F) |->
+     [k |-> K[j], par |-> IF F[j].par = 0 THEN PX ELSE PE(base + F[j].par),
+      cont |-> IF F[j].v # <<>> THEN <<CItem(F[j].v[1])>>
+               ELSE LET ch == SelectSeq([i \in 1..Len(F) |-> i], LAMBDA i : F[i].par = j) IN [x \in 1..Len(ch) |-> EItem(base + ch[x])],
+      at |-> F[j].at, cmt |-> <<>>, fm |-> {}]]
+
+\* --- the merge of an incoming tree (side b, root rb) into the model (side a): AutosarModel::merge_element
+SameValue(x, y) == x.k = y.k /\ x.v = y.v
+\* the DEFINITION-REF text of a BSW value: <<>> or <<value>>
+DefRef(s, e) ==
+  LET C == SubIds(s, e)
+      S == {j \in 1..Len(C) : NameOf(s, C[j]) = "DEFINITION-REF"} IN
+  IF S = {} THEN <<>> ELSE LET d == C[Min(S)] IN IF HasCData(s, d) /\ CData(s, d).k \in {"s", "p"} THEN <<CData(s, d)>> ELSE <<>>
+DefRefEq(s, x, y) == LET a == DefRef(s, x) b == DefRef(s, y) IN (a = <<>> /\ b = <<>>) \/ (a # <<>> /\ b # <<>> /\ SameValue(a[1], b[1]))
+MergedB(acc) == {acc.merge[j][2] : j \in 1..Len(acc.merge)}
+\* an element of b that the positional walk did not pair: merge it with the same identifiable element of a, or import it
+MergeOrImport(s, A, eb, pos, acc) ==
+  IF eb \in MergedB(acc) THEN acc
+  ELSE LET S == {j \in 1..Len(A) : NameOf(s, A[j]) = NameOf(s, eb) /\ ItemName(s, A[j]) = ItemName(s, eb)} IN
+       IF IsIdent(s, eb) /\ S # {} THEN [acc EXCEPT !.merge = Append(@, <<A[Min(S)], eb>>)]
+       ELSE [acc EXCEPT !.bonly = Append(@, <<eb, pos>>)]
+RECURSIVE MergeWalk(_, _, _, _, _, _, _, _)
+\* acc = [err, aonly, bonly (<<element, position>>), merge (<<a, b>>), ia, ib]
+MergeWalk(s, pa, A, B, ia, ib, spl, acc) ==
+  IF ia > Len(A) \/ ib > Len(B) THEN [acc EXCEPT !.ia = ia, !.ib = ib]
+  ELSE
+    LET ea == A[ia]
+        eb == B[ib]
+        act ==
+          IF NameOf(s, ea) = NameOf(s, eb) THEN
+             IF IsIdent(s, ea) THEN
+                IF ItemName(s, ea) = ItemName(s, eb) THEN [t |-> "eq", o |-> 0]
+                ELSE LET S == {j \in 1..Len(B) : NameOf(s, B[j]) = NameOf(s, ea) /\ ItemName(s, B[j]) = ItemName(s, ea)} IN
+                     IF S # {} THEN [t |-> "uneq", o |-> B[Min(S)]]
+                     ELSE IF spl THEN [t |-> "a", o |-> 0] ELSE [t |-> "err", o |-> 0]
+             ELSE IF DefRefEq(s, ea, eb) THEN [t |-> "eq", o |-> 0]
+             ELSE LET S == {j \in 1..Len(B) : NameOf(s, B[j]) = NameOf(s, ea) /\ DefRefEq(s, B[j], ea)} IN
+                  IF S # {} THEN [t |-> "uneq", o |-> B[Min(S)]] ELSE [t |-> "a", o |-> 0]
+          ELSE LET pk == Kind(s, pa)
+                   xa == KChildren(pk)[ChildIxAny(pk, NameOf(s, ea))].idx
+                   xb == KChildren(pk)[ChildIxAny(pk, NameOf(s, eb))].idx IN
+               IF CmpIdx(xa, xb) < 0 THEN [t |-> "a", o |-> 0] ELSE [t |-> "b", o |-> 0]
+    IN CASE act.t = "err" -> [acc EXCEPT !.err = TRUE]
+         [] act.t = "eq" -> MergeWalk(s, pa, A, B, ia + 1, ib + 1, spl,
+                                      IF eb \in MergedB(acc) THEN acc ELSE [acc EXCEPT !.merge = Append(@, <<ea, eb>>)])
+         [] act.t = "uneq" -> MergeWalk(s, pa, A, B, ia + 1, ib, spl,
+                                        IF act.o \in MergedB(acc) THEN acc ELSE [acc EXCEPT !.merge = Append(@, <<ea, act.o>>)])
+         [] act.t = "a" -> MergeWalk(s, pa, A, B, ia + 1, ib, spl, [acc EXCEPT !.aonly = Append(@, ea)])
+         [] OTHER -> MergeWalk(s, pa, A, B, ia, ib + 1, spl, MergeOrImport(s, A, eb, ia - 1, acc))
+RECURSIVE RestB(_, _, _, _, _, _)
+RestB(s, A, B, ib, pos, acc) == IF ib > Len(B) THEN acc ELSE RestB(s, A, B, ib + 1, pos, MergeOrImport(s, A, B[ib], pos, acc))
+RECURSIVE PinAOnly(_, _, _)
+PinAOnly(s, ids, F) == IF ids = <<>> THEN s ELSE PinAOnly(IF s.n[Head(ids)].fm = {} THEN SetF(s, Head(ids), "fm", F) ELSE s, Tail(ids), F)
+RECURSIVE ImportNew(_, _, _, _, _, _)
+\* import_new_items: [ok, s]
+ImportNew(s, pa, bonly, k, nf, vb) ==
+  IF k > Len(bonly) THEN [ok |-> TRUE, s |-> s]
+  ELSE LET eb == bonly[k][1]
+           s1 == [s EXCEPT !.n[eb].par = PE(pa), !.n[eb].fm = @ \cup {nf}]
+           r == CalcRange(s1, pa, NameOf(s1, eb), vb) IN
+       IF r.t = "err" THEN [ok |-> FALSE, s |-> s1]
+       ELSE LET want == bonly[k][2] + (k - 1)
+                dest == IF want < r.lo THEN r.lo ELSE IF want > r.hi THEN r.hi ELSE want IN
+            ImportNew(SetF(s1, pa, "cont", InsAt(Cont(s1, pa), dest, EItem(eb))), pa, bonly, k + 1, nf, vb)
+RECURSIVE MergeEl(_, _, _, _, _, _)
+RECURSIVE MergeSubs(_, _, _, _, _, _)
+\* [ok, s]
+MergeEl(s, pa, pb, files, nf, vb) ==
+  LET A == SubIds(s, pa)
+      B == SubIds(s, pb)
+      w0 == MergeWalk(s, pa, A, B, 1, 1, KSplit(Kind(s, pa)), [err |-> FALSE, aonly |-> <<>>, bonly |-> <<>>, merge |-> <<>>, ia |-> 1, ib |-> 1]) IN
+  IF w0.err THEN [ok |-> FALSE, s |-> s]
+  ELSE LET w1 == [w0 EXCEPT !.aonly = @ \o SubSeq(A, w0.ia, Len(A))]
+           w == RestB(s, A, B, w0.ib, Len(Cont(s, pa)), w1)
+           s1 == PinAOnly(s, w.aonly, files)
+           im == ImportNew(s1, pa, w.bonly, 1, nf, vb) IN
+       IF ~im.ok THEN im ELSE MergeSubs(im.s, w.merge, 1, files, nf, vb)
+MergeSubs(s, pairs, k, files, nf, vb) ==
+  IF k > Len(pairs) THEN [ok |-> TRUE, s |-> s]
+  ELSE LET ea == pairs[k][1]
+           fl == IF s.n[ea].fm # {} THEN s.n[ea].fm ELSE files
+           r == MergeEl(s, ea, pairs[k][2], fl, nf, vb) IN
+       IF ~r.ok THEN r
+       ELSE MergeSubs(IF r.s.n[ea].fm # {} THEN SetF(r.s, ea, "fm", r.s.n[ea].fm \cup {nf}) ELSE r.s, pairs, k + 1, files, nf, vb)
+
+\* --- the handles: parsed elements that are not part of the model afterwards (merged away) are never seen by anyone;
+\* the surviving new nodes are numbered in the order of a walk over the model's tree (the order in which a client meets them)
+PosIn(sq, x) == LET S == {j \in 1..Len(sq) : sq[j] = x} IN IF S = {} THEN 0 ELSE Min(S)
+RECURSIVE SortNat(_)
+SortNat(sq) == IF sq = <<>> THEN <<>> ELSE InsSorted(SortNat(Tail(sq)), Head(sq))
+Renumber(s, m, base) ==
+  LET order == SelectSeq(Dfs(s, s.root[m]), LAMBDA i : i > base)
+      Map(i) == IF i <= base THEN i ELSE LET q == PosIn(order, i) IN IF q = 0 THEN 0 ELSE base + q
+      MapNode(nd) == [nd EXCEPT !.par = IF @.t = "e" THEN PE(Map(@.v)) ELSE @,
+                                !.cont = [j \in 1..Len(@) |-> IF @[j].t = "e" THEN EItem(Map(@[j].id)) ELSE @[j]]]
+  IN [s EXCEPT !.n = [j \in 1..(base + Len(order)) |-> MapNode(s.n[IF j <= base THEN j ELSE order[j - base]])],
+               !.root[m] = Map(@),
+               !.idx[m] = {<<e[1], Map(e[2])>> : e \in {x \in @ : Map(x[2]) # 0}},
+               !.refo[m] = {<<e[1], SortNat(SelectSeq([j \in 1..Len(e[2]) |-> Map(e[2][j])], LAMBDA x : x # 0))>> : e \in @}]
+
+\* the catalogue of documents (rendered to text for the real library by LoadText)
+PkgA(c) == DNamed("AR-PACKAGE", "a", c)
+Els(c) == DN("ELEMENTS", c)
+Sys(n) == DNamed("SYSTEM-SIGNAL", n, <<>>)
+ISigRef(n, target) == DNamed("I-SIGNAL", n, <<DA("SYSTEM-SIGNAL-REF", <<[n |-> "DEST", v |-> EVal("SYSTEM-SIGNAL")]>>, PVal(target))>>)
+DocOf(ver, pkgs) == [ver |-> ver, root |-> DN("AUTOSAR", <<DN("AR-PACKAGES", pkgs)>>)]
+LoadDocs ==
+  [pb |-> DocOf("V50", <<PkgA(<<>>), DNamed("AR-PACKAGE", "b", <<>>)>>),
+   pe |-> DocOf("V50", <<PkgA(<<Els(<<Sys("s"), Sys("t"), ISigRef("i", <<"a", "s">>)>>)>>)>>),
+   pr |-> DocOf("V50", <<PkgA(<<Els(<<ISigRef("j", <<"a", "t">>), Sys("t")>>)>>)>>),
+   pn |-> DocOf("V50", <<DNamed("AR-PACKAGE", "c", <<>>), PkgA(<<DN("AR-PACKAGES", <<DNamed("AR-PACKAGE", "p", <<Els(<<Sys("u")>>)>>)>>)>>)>>),
+   po |-> DocOf("V401", <<PkgA(<<Els(<<Sys("o")>>)>>)>>),
+   px |-> DocOf("V50", <<PkgA(<<Els(<<DNamed("I-SIGNAL", "s", <<>>)>>)>>)>>),
+   \* the documents of the random driver
+   ok_a |-> DocOf("V50", <<PkgA(<<Els(<<Sys("s"), ISigRef("i", <<"a", "s">>)>>)>>)>>),
+   ok_b |-> DocOf("V50", <<DNamed("AR-PACKAGE", "b", <<Els(<<Sys("t")>>)>>), PkgA(<<Els(<<ISigRef("j", <<"a", "s">>)>>)>>)>>),
+   ok_old |-> DocOf("V401", <<DNamed("AR-PACKAGE", "p", <<Els(<<Sys("s")>>)>>)>>),
+   dangling |-> DocOf("V50", <<DNamed("AR-PACKAGE", "ab", <<Els(<<ISigRef("k", <<"a", "nowhere">>)>>)>>)>>)]
+RECURSIVE RegisterIdents(_, _, _)
+\* the identifiable elements of the file, in document order: an existing entry for the same path is kept
+RegisterIdents(s, m, ids) ==
+  IF ids = <<>> THEN s
+  ELSE LET e == Head(ids)
+           pp == ApiPath(s, e) IN
+       RegisterIdents(IF pp.t = "ok" /\ Lookup(s, m, pp.v) = 0 THEN AddIdx(s, m, pp.v, e) ELSE s, m, Tail(ids))
+RECURSIVE RegisterRefs(_, _, _)
+RegisterRefs(s, m, ids) == IF ids = <<>> THEN s ELSE RegisterRefs(AddRefo(s, m, CData(s, Head(ids)).v, Head(ids)), m, Tail(ids))
+
+Load(s, m, dname, fname) ==
+  IF \E j \in 1..Len(s.files[m]) : s.f[s.files[m][j]].name = fname THEN {Fail(s, "DuplicateFilenameError")}
+  ELSE
+  LET doc == LoadDocs[dname]
+      F == Flatten(doc.root, 0, <<>>)
+      K == DocKinds(F, doc.ver, <<>>)
+      base == Len(s.n)
+      rb == base + 1
+      fid == Len(s.f) + 1
+      \* the parsed tree with its root provisionally linked to the model, so that paths can be computed on it
+      sp == [s EXCEPT !.n = @ \o [ParsedNodes(F, K, base) EXCEPT ![1].par = PM(m)]]
+      new == [j \in 1..Len(F) |-> base + j]
+      idents == SelectSeq(new, LAMBDA i : IsIdent(sp, i) /\ ItemName(sp, i) # <<>>)
+      refs == SelectSeq(new, LAMBDA i : KIsRef(Kind(sp, i)) /\ HasRefData(sp, i))
+      clash == \E j \in 1..Len(idents) : LET o == Lookup(s, m, ApiPath(sp, idents[j]).v) IN o # 0 /\ NameOf(s, o) # NameOf(sp, idents[j])
+  IN
+  IF clash THEN {Fail(s, "OverlappingDataError")}
+  ELSE
+  LET s1 == [sp EXCEPT !.f = Append(@, [name |-> fname, ver |-> doc.ver, m |-> m])]
+      merged ==
+        IF s.files[m] = <<>> THEN
+             \* the parsed root becomes the root of the model; the old (empty) root is detached
+             [ok |-> TRUE, s |-> [s1 EXCEPT !.n[rb].fm = {fid}, !.n[s.root[m]].par = PX, !.root[m] = rb]]
+        ELSE LET r == MergeEl([s1 EXCEPT !.n[rb].par = PX], s.root[m], rb, SeqToSet(s.files[m]), fid, doc.ver) IN
+             IF ~r.ok THEN r ELSE [ok |-> TRUE, s |-> SetF(r.s, s.root[m], "fm", r.s.n[s.root[m]].fm \cup {fid})]
+  IN
+  IF ~merged.ok THEN {}      \* (InvalidFileMerge leaves a partially merged model behind: not described here; no catalogue document leads to it)
+  ELSE LET alive == SeqToSet(Dfs(merged.s, merged.s.root[m]))
+           s2 == RegisterIdents(merged.s, m, SelectSeq(idents, LAMBDA i : i \in alive))
+           s3 == RegisterRefs(s2, m, SelectSeq(refs, LAMBDA i : i \in alive))
+           s4 == [s3 EXCEPT !.files[m] = Append(@, fid)]
+       IN {Ok(Renumber(s4, m, base), fid)}
+
+\* rendering (no insignificant white space)
+XsdOf(v) == CASE v = "V401" -> "AUTOSAR_4-0-1.xsd" [] v = "V430" -> "AUTOSAR_4-3-0.xsd" [] OTHER -> "AUTOSAR_00050.xsd"
+RECURSIVE JoinPath(_)
+JoinPath(p) == IF p = <<>> THEN "" ELSE "/" \o Head(p) \o JoinPath(Tail(p))
+ValText(val) == IF val.k = "p" THEN JoinPath(val.v) ELSE val.v
+RECURSIVE RenderAttrs(_)
+RenderAttrs(at) == IF at = <<>> THEN "" ELSE " " \o Head(at).n \o "=\"" \o ValText(Head(at).v) \o "\"" \o RenderAttrs(Tail(at))
+RECURSIVE RenderDoc(_)
+RECURSIVE RenderDocs(_)
+RenderDoc(d) == "<" \o d.n \o RenderAttrs(d.at) \o ">" \o (IF d.v # <<>> THEN ValText(d.v[1]) ELSE RenderDocs(d.c)) \o "</" \o d.n \o ">"
+RenderDocs(ds) == IF ds = <<>> THEN "" ELSE RenderDoc(Head(ds)) \o RenderDocs(Tail(ds))
+LoadText(dname) ==
+  LET doc == LoadDocs[dname] IN
+  "<?xml version=\"1.0\" encoding=\"utf-8\"?>\n<AUTOSAR xsi:schemaLocation=\"http://autosar.org/schema/r4.0 " \o XsdOf(doc.ver)
+  \o "\" xmlns=\"http://autosar.org/schema/r4.0\" xmlns:xsi=\"http://www.w3.org/2001/XMLSchema-instance\">" \o RenderDocs(doc.root.c) \o "</AUTOSAR>"
+
 \* ------------------------------------------------------------------ dispatcher: action record -> outcomes
 \* action fields: op, and (as needed) m, p, c, k (element name), name, pos, val, an, f, ver
 Do(s, a) ==
@@ -779,6 +980,7 @@ Do(s, a) ==
     [] a.op = "AddToFile"      -> AddToFile(s, a.p, a.f)
     [] a.op = "RemoveFromFile" -> RemoveFromFile(s, a.p, a.f)
     [] a.op = "Duplicate"      -> Duplicate(s, a.m)
+    [] a.op = "Load"           -> Load(s, a.m, a.k, a.name)
 
 \* the empty universe: NM models without files
 EmptyState(NM) ==
